@@ -35,6 +35,9 @@ def parse_reports(text):
         elif line.startswith('S '):
             _, key, sexpr = line.split(' ', 2)
             cur['spec'].append((key, sexpr))
+        elif line.startswith('INFO '):
+            _, k, v = line.split(' ', 2)
+            cur.setdefault('info', {})[k] = v
         elif line:
             cur['extra'].append(line)
     return out
@@ -100,11 +103,11 @@ def run_kernel(progs, workdir, name='kcases'):
     vf = os.path.join(workdir, name + '.v')
     with open(vf, 'w') as f:
         f.write('From Coq Require Import ZArith List Bool String.\n'
-                'From PS.model Require Import Smt Enc Ind Prog Driver.\nFrom PS.spec Require Import Spec.\n'
+                'From PS.model Require Import Smt Enc Ind Prog Driver.\nFrom PS.spec Require Import Spec Report.\n'
                 'Import ListNotations.\nOpen Scope string_scope.\n')
         for i, p in enumerate(progs):
             f.write('Definition p%d : list op := %s.\n' % (i, to_coq(p)))
-            f.write('Eval vm_compute in ("PROG" :: report_run spec_all p%d ++ ["END"]).\n' % i)
+            f.write('Eval vm_compute in ("PROG" :: report p%d ++ ["END"]).\n' % i)
     r = subprocess.run(['coqc'] + COQFLAGS + [vf], cwd=COQ, capture_output=True, text=True, timeout=1200)
     if r.returncode != 0:
         raise RuntimeError('coqc failed: ' + (r.stderr or r.stdout)[:3000])
